@@ -220,7 +220,8 @@ func deep(n int, f func()) {
 	runtime.KeepAlive(n)
 }
 
-var bigMsg = strings.Repeat("0123456789abcdef", 256)  // 4 KiB
+var bigMsg = strings.Repeat("0123456789abcdef", 256) // 4 KiB
+var hugeMsg = strings.Repeat("H", 40*1024)
 var bigVal = strings.Repeat("v\twith\\escapes\"", 128) // ~2 KiB, grows when escaped
 
 // ---------------------------------------------------------------------------
@@ -284,6 +285,10 @@ var ops = []op{
 	}},
 	{"big", "4 KiB message and a 2 KiB value that grows when escaped (buffer growth)", func(e *env) {
 		e.get("J").Info(bigMsg, zap.String("k", bigVal))
+	}},
+	{"huge", "40 KiB entry (buffers grow past the pool's retention limit)", func(e *env) {
+		e.get("J").Info(hugeMsg, zap.Int("a", 1))
+		e.get("C").Info(hugeMsg, zap.Int("a", 1))
 	}},
 	{"enc", "JSON encoder used directly: clone, add context, EncodeEntry", func(e *env) {
 		base := zapcore.NewJSONEncoder(jsonCfg())
@@ -382,6 +387,7 @@ func runSeq(e *env, seq []int) []string {
 
 // seqBody / concBody are the only roots under which operations run, for the
 // reference runs as well as for the explored ones, so stack annotations agree.
+//
 //go:noinline
 func seqBody(seq []int, out *[]string) func() {
 	return func() { *out = runSeq(newEnv(), seq) }
@@ -585,10 +591,11 @@ func merge(dst *mc.Stats, st mc.Stats) {
 }
 
 // item formats:
-//   seq|<dev>|<prefix ops a.b>|<L>     every history prefix+suffix of total length L (suffix over the whole alphabet)
-//   one|<dev>|<a.b.c>                  exactly one history (replays)
-//   conc|<pre>|<dev>|<a.b;c;d>         threads
-//   ref|<op>                           the first-call reference runs themselves
+//
+//	seq|<dev>|<prefix ops a.b>|<L>     every history prefix+suffix of total length L (suffix over the whole alphabet)
+//	one|<dev>|<a.b.c>                  exactly one history (replays)
+//	conc|<pre>|<dev>|<a.b;c;d>         threads
+//	ref|<op>                           the first-call reference runs themselves
 func handler(item string, replay []int, isReplay bool, journal func([]int)) mc.ItemResult {
 	poison()
 	vsched.PoolChoices = true
